@@ -252,6 +252,121 @@ def run(chk: Check, eng: Engine) -> None:
         chk.bad("R19-d", eng.relfile(vr), vr.line, vr.fq, "rep_min / rep_max are not taken from the node's (or the bounds constraint's) min and max respectively",
                 "the bounds are swapped or replaced", keyparts="rep-bound-provenance")
 
+    # ---- R19-g ---------------------------------------------------------------
+    # the whole decision of visitRepetitionType, executed over small integers: rounds present n, bounds mn <= mx, and the results F / E of
+    # following the last round present and of exploring one more round
+    chk.rule("R19-g", "visitRepetitionType decides like its specification for all small (rounds present, min, max, follow result, explore result): an unfinished round ends the "
+             "walk, one more round is explored exactly while rounds < max, what follows is reachable exactly when the rounds present suffice", floor=1)
+
+    class _Ret(Exception):
+        def __init__(self, v):
+            self.v = v
+
+    def run_rt(n: int, mn: int, mx: int, F: bool, E: bool):
+        env = {"tree_len": 0, "rep_min": None, "rep_max": None, "continue_exploring": None}
+        visits: list[str] = []
+
+        def ev(e: ast.AST, in_follow: bool):
+            if isinstance(e, ast.Constant):
+                return e.value
+            if isinstance(e, ast.Name):
+                if e.id == "tree":
+                    return ["round"] * n if n > 0 else None
+                if e.id in env:
+                    return env[e.id]
+                raise AnalysisError(f"visitRepetitionType: unknown name `{e.id}` in a decision")
+            if isinstance(e, ast.Attribute) and norm(e) == "node.min":
+                return mn
+            if isinstance(e, ast.Attribute) and norm(e) == "node.max":
+                return mx
+            if isinstance(e, ast.Attribute) and norm(e) == "node.bounds_constraint":
+                return None
+            if isinstance(e, ast.Call) and call_name(e) == "len" and e.args and norm(e.args[0]) == "tree":
+                return n
+            if isinstance(e, ast.Call) and self_attr(e.func) == "visit":
+                visits.append("follow" if in_follow else "explore")
+                return F if in_follow else E
+            if isinstance(e, ast.UnaryOp) and isinstance(e.op, ast.Not):
+                return not ev(e.operand, in_follow)
+            if isinstance(e, ast.BoolOp):
+                if isinstance(e.op, ast.And):
+                    r = True
+                    for v in e.values:
+                        r = ev(v, in_follow)
+                        if not r:
+                            return r
+                    return r
+                r = False
+                for v in e.values:
+                    r = ev(v, in_follow)
+                    if r:
+                        return r
+                return r
+            if isinstance(e, ast.Compare) and len(e.ops) == 1:
+                a, b = ev(e.left, in_follow), ev(e.comparators[0], in_follow)
+                op = e.ops[0]
+                if isinstance(op, ast.Is):
+                    return a is b
+                if isinstance(op, ast.IsNot):
+                    return a is not b
+                table = {ast.Lt: lambda: a < b, ast.LtE: lambda: a <= b, ast.Gt: lambda: a > b, ast.GtE: lambda: a >= b, ast.Eq: lambda: a == b, ast.NotEq: lambda: a != b}
+                if type(op) in table:
+                    return table[type(op)]()
+            if isinstance(e, ast.BinOp) and isinstance(e.op, (ast.Add, ast.Sub)):
+                a, b = ev(e.left, in_follow), ev(e.right, in_follow)
+                return a + b if isinstance(e.op, ast.Add) else a - b
+            raise AnalysisError(f"visitRepetitionType: `{short(e, 50)}` is outside the decision language understood by R19-g")
+
+        def block(stmts, in_follow: bool):
+            for st in stmts:
+                if isinstance(st, ast.Return):
+                    raise _Ret(ev(st.value, in_follow))
+                if isinstance(st, ast.If):
+                    t = ev(st.test, in_follow)
+                    follow_branch = in_follow or ("tree" in {x.id for x in ast.walk(st.test) if isinstance(x, ast.Name)} and "rep_max" not in norm(st.test))
+                    block(st.body if t else st.orelse, follow_branch if t else in_follow)
+                elif isinstance(st, ast.Assign) and len(st.targets) == 1 and isinstance(st.targets[0], ast.Name) and st.targets[0].id in env:
+                    env[st.targets[0].id] = ev(st.value, in_follow)
+                elif isinstance(st, ast.Assign) and len(st.targets) == 1 and isinstance(st.targets[0], ast.Name) and st.targets[0].id == "tree":
+                    pass
+                elif isinstance(st, ast.Assign) and isinstance(st.targets[0], ast.Tuple):
+                    pass  # bounds from the (absent) bounds constraint
+                elif isinstance(st, (ast.Expr, ast.Assert, ast.For, ast.Pass)):
+                    pass  # stack bookkeeping (R19-b) / dead bounds-constraint block
+                else:
+                    raise AnalysisError(f"visitRepetitionType: statement `{short(st, 50)}` is outside the decision language understood by R19-g")
+        try:
+            block(vr.node.body, False)  # type: ignore[attr-defined]
+        except _Ret as r:
+            return bool(r.v), visits
+        return None, visits
+
+    n_cases = 0
+    bad_case = None
+    for n_ in range(0, 4):
+        for mn_ in range(0, 3):
+            for mx_ in range(max(1, mn_), 4):
+                for F_ in (True, False):
+                    for E_ in (True, False):
+                        n_cases += 1
+                        got, visits = run_rt(n_, mn_, mx_, F_, E_)
+                        unfinished = n_ > 0 and not F_
+                        should_explore = (not unfinished) and n_ < mx_
+                        want = False if unfinished else (True if (should_explore and E_) else n_ >= mn_)
+                        if n_ == 0 and "follow" in visits or (n_ > 0 and visits[:1] != ["follow"]):
+                            bad_case = bad_case or ((n_, mn_, mx_, F_, E_), f"the last round present is {'followed although there is none' if n_ == 0 else 'not followed first'}")
+                        elif ("explore" in visits) != should_explore:
+                            bad_case = bad_case or ((n_, mn_, mx_, F_, E_), f"one more round is {'explored' if 'explore' in visits else 'not explored'} (expected: {'explored' if should_explore else 'not explored'})")
+                        elif got != want:
+                            bad_case = bad_case or ((n_, mn_, mx_, F_, E_), f"returns {got}, expected {want}")
+    if bad_case is None:
+        chk.ok("R19-g", vr.fq, vr.line, f"visitRepetitionType agrees with its specification in all {n_cases} cases (rounds present 0..3, min 0..2, max 1..3, follow / explore results)")
+    else:
+        (n_, mn_, mx_, F_, E_), what = bad_case
+        chk.bad("R19-g", eng.relfile(vr), vr.line, vr.fq, f"with {n_} round(s) present, bounds {{{mn_},{mx_}}}, last round {'complete' if F_ else 'unfinished'}, a further round "
+                f"{'can be empty' if E_ else 'offers messages'}: {what}",
+                "for such a history the forecaster offers a message that cannot come next (or withholds one that can)", keyparts="repetition-truth-table")
+
     # ---- R19-e ---------------------------------------------------------------
     pf = eng.cls(f"{NAV}.packetforecaster", "PathFinder")
     on = eng.method(pf, "onNonTerminalNodeVisit", inherited=False)
@@ -327,6 +442,7 @@ MUTANTS = [
       "            self.current_tree.append(None)\n            continue_exploring = self.visit(next_child)\n            self.current_tree.pop()\n            if not continue_exploring:\n                self.current_tree.pop()\n            child_idx += 1\n", "R19-b"),
     M("explore-stops-at-first-continuing-alternative", _CNV, "            for alt in node.alternatives:\n                continue_exploring |= self.visit(alt)\n",
       "            for alt in node.alternatives:\n                continue_exploring = continue_exploring or self.visit(alt)\n", "R19-c"),
+    M("unfinished-round-does-not-end-the-walk", _CNV, "            if not continue_exploring:\n                # The last round present in the history is unfinished: what follows\n                # the repetition cannot come before that round is complete.\n                return False\n", "", "R19-g"),
     M("one-round-too-many", _CNV, "        if continue_exploring and tree_len < rep_max:\n", "        if continue_exploring and tree_len <= rep_max:\n", "R19-d"),
     M("leave-before-minimum", _CNV, "        if tree_len >= rep_min:\n            return True\n", "        if tree_len + 1 >= rep_min:\n            return True\n", "R19-d"),
     M("bounds-swapped", _CNV, "        rep_min = node.min\n        rep_max = node.max\n", "        rep_min = node.max\n        rep_max = node.min\n", "R19-d"),
